@@ -653,6 +653,46 @@ def run(ctx):
         same = pp.ref_of(a[0]) is not None and pp.ref_of(a[1]) is not None and rb == [pp.ref_of(a[0])] and re_ == [pp.ref_of(a[1])]
         moved = [w for r_ in (pp.ref_of(a[0]), pp.ref_of(a[1])) if r_ for w in q.writes_to(pp, r_) if any(q.between(pp, i, w, v) for v in vw)]
         ctx.check(same and not moved, R5, 'parse_properties:validated-range-is-the-recorded-value', 'the range validated is not the range recorded as the attribute value', pp.loc(i))
+    # ---------------- R11 the scheme a URI is white-listed by is the RFC 3986 scheme
+    R11 = ctx.rule('C04.R11', 'uri_parser::scheme() takes exactly ALPHA *( ALPHA / DIGIT / "+" / "-" / "." ) (E3: every first byte, every second byte): a scheme cut short or stretched makes '
+                              'uri() fail or succeed on other text than the one the white-list expression is shown, and the lenient relative-reference branch takes over')
+    from vlib.absint import Cell as _Cell
+    sch = P.fn('cppcms::xss::uri_parser::scheme')
+    UF = 'f:cppcms::xss::uri_parser::'
+    alpha = lambda v: 65 <= v <= 90 or 97 <= v <= 122
+    tail_ok = lambda v: alpha(v) or 48 <= v <= 57 or v in (43, 45, 46)
+    for mode in ('first', 'second'):
+        bad = None
+        nb = 0
+
+        def runs(it, mode=mode):
+            sg = lambda v: v - 256 if v > 127 else v
+            if mode == 'first':
+                a = Arr([it.inbyte(0), AV.const(58), AV.const(0)], 'uri')
+                n_ = 1
+            else:
+                a = Arr([AV.const(ord('a')), it.inbyte(0), AV.const(58), AV.const(0)], 'uri')
+                n_ = 3
+            it.fields = {UF + 'begin_': _Cell(PV(a, 0)), UF + 'end_': _Cell(PV(a, n_)), UF + 'scheme_start_': _Cell(PV(a, 0)), UF + 'scheme_end_': _Cell(PV(a, 0))}
+            rv = it.call_fn(sch, [])
+            return rv, it.fields[UF + 'begin_'].v, it.fields[UF + 'scheme_start_'].v, it.fields[UF + 'scheme_end_'].v
+        for (bx, res, it) in absint.explore(P, runs, [[(-128, 127)]]):
+            nb += 1
+            rv, bg, ss, se_ = res
+            vals = [v & 0xFF for v in range(bx[0][0], bx[0][1] + 1)]
+            if not (isinstance(rv, AV) and rv.is_const()):
+                bad = bad or ('not decided', bx)
+                continue
+            for v in vals:
+                if mode == 'first':
+                    want = (1, 1) if alpha(v) else (0, None)
+                else:
+                    want = (1, 2) if tail_ok(v) else (1, 1)
+                got = (int(bool(rv.lo)), (se_.off if rv.lo else None))
+                if got[0] != want[0] or (want[1] is not None and (got[1] != want[1] or bg.off != want[1] or ss.off != 0)):
+                    bad = bad or ('byte 0x%02x as %s character: scheme() = %d with the scheme ending at %r, RFC 3986 says %r' % (v, mode, got[0], got[1], want), bx)
+        ctx.check(bad is None, R11, 'uri_parser::scheme:%s-character' % mode, bad[0] if bad else '', sch.where, detail={'boxes': nb})
+    ctx.floor(R11, 2)
     ctx.floor(R5, 12)
     ctx.floor(R1, 30)
     ctx.floor(R2, 4)
